@@ -90,6 +90,11 @@ static PAUSES_TAKEN: AtomicU64 = AtomicU64::new(0);
 /// random delay mode: probability (per mille) and seed
 static JITTER_PERMILLE: AtomicU64 = AtomicU64::new(0);
 static JITTER_STATE: AtomicU64 = AtomicU64::new(0x9E3779B97F4A7C15);
+/// delay injection for threads the run did NOT register (the engine's own blocking-pool search workers):
+/// permille of lock acquisitions at which such a thread sleeps 0.2-3 ms, so that workers outlive their
+/// request's stage timeout and keep their worker permit (worker-permit saturation exits)
+static WORKER_DELAY_PERMILLE: AtomicU64 = AtomicU64::new(0);
+static WORKER_DELAYS_TAKEN: AtomicU64 = AtomicU64::new(0);
 static INSTALLED: AtomicBool = AtomicBool::new(false);
 
 fn site_of(loc: &'static Location<'static>) -> String {
@@ -110,9 +115,11 @@ fn hook_before(addr: usize, mode: u8, blocking: bool, loc: &'static Location<'st
     let mut pause_for: Option<(usize, u64)> = None;
     let mut jitter = false;
     let mut self_deadlock: Option<String> = None;
+    let mut registered = false;
     let r = TS.try_with(|ts| {
         let mut b = ts.borrow_mut();
         let Some(t) = b.as_mut() else { return };
+        registered = true;
         t.events += 1;
         let site = site_of(loc);
         let mut g = global().lock().unwrap();
@@ -163,7 +170,20 @@ fn hook_before(addr: usize, mode: u8, blocking: bool, loc: &'static Location<'st
             jitter = true;
         }
     });
-    let _ = r;
+    if r.is_ok() && !registered {
+        let p = WORKER_DELAY_PERMILLE.load(Ordering::Relaxed);
+        if p > 0 {
+            let mut x = JITTER_STATE.fetch_add(0x9E3779B97F4A7C15, Ordering::Relaxed);
+            x = (x ^ (x >> 30)).wrapping_mul(0xBF58476D1CE4E5B9);
+            x = (x ^ (x >> 27)).wrapping_mul(0x94D049BB133111EB);
+            x ^= x >> 31;
+            if x % 1000 < p {
+                WORKER_DELAYS_TAKEN.fetch_add(1, Ordering::Relaxed);
+                std::thread::sleep(Duration::from_micros(200 + (x >> 20) % 2800));
+            }
+        }
+        return;
+    }
     if let Some(d) = self_deadlock {
         // the thread would block forever; record the witness and unwind instead (guards are released
         // by the unwinding, so the other threads of the run can finish)
@@ -337,6 +357,14 @@ pub fn set_pause(p: Option<Pause>, p2: Option<Pause>) {
 pub fn set_jitter(permille: u64, seed: u64) {
     JITTER_STATE.store(seed | 1, Ordering::SeqCst);
     JITTER_PERMILLE.store(permille, Ordering::SeqCst);
+}
+
+pub fn set_worker_delay(permille: u64) {
+    WORKER_DELAY_PERMILLE.store(permille, Ordering::SeqCst);
+}
+
+pub fn worker_delays_taken() -> u64 {
+    WORKER_DELAYS_TAKEN.load(Ordering::Relaxed)
 }
 
 pub fn pauses_taken() -> u64 {
